@@ -60,6 +60,14 @@ class SliceRef:
         return 'SliceRef(%d+%d)' % (self.start, self.len)
 
 
+class Poison:
+    """value that could not be merged; any use is Unsupported"""
+    __slots__ = ('why',)
+
+    def __init__(self, why):
+        self.why = why
+
+
 class FnRef:
     """function item / pointer"""
     __slots__ = ('name',)
@@ -509,6 +517,8 @@ class Interp:
 
     def copy_val(self, v):
         if type(v) is L:
+            if v.tag == 'symenum':
+                return self.mk([v[0], {k: self.copy_val(f) for k, f in v[1].items()}], 'symenum')
             n = L(self.copy_val(x) if type(x) is L else x for x in v)
             self.alloc += 1
             n.birth = self.alloc
@@ -555,10 +565,11 @@ class Interp:
         """-> (container, key) ; key may be ('slice', SliceRef) / ('sym', list, start, len, idx)"""
         c = fr.locals
         k = place.local
+        variant = None
         for p in place.proj:
             kind = p[0]
             if kind == 'deref':
-                v = c[k] if type(k) is int else self._load_special(c, k)
+                v = c[k]
                 if type(v) is Ptr:
                     c, k = v.c, v.k
                 elif type(v) is SliceRef:
@@ -573,10 +584,18 @@ class Interp:
                     raise Unsupported('field of non-aggregate %r (%s in %s)' % (v, place, fr.fn.name))
                 if v.tag == 'enum':
                     c, k = v, p[1] + 1
+                elif v.tag == 'symenum':
+                    if variant is None:
+                        raise Unsupported('field of a symbolic enum without downcast')
+                    dv = self.variant_discr(fr, place, variant)
+                    fields = v[1].get(dv)
+                    if fields is None:
+                        raise Unsupported('symbolic enum has no variant %s' % variant)
+                    c, k = fields, p[1]
                 else:
                     c, k = v, p[1]
             elif kind == 'downcast':
-                pass
+                variant = p[1]
             elif kind == 'index':
                 idx = fr.locals[p[1]]
                 if c is None:
@@ -606,6 +625,25 @@ class Interp:
             else:
                 raise Unsupported('projection %r' % (p,))
         return c, k
+
+    def variant_discr(self, fr, place, variant):
+        """discriminant value of `variant` for the enum type the place's downcast applies to"""
+        ty = fr.fn.locals.get(place.local)
+        for p in place.proj:
+            if p[0] == 'downcast' and p[1] == variant:
+                break
+            if p[0] == 'deref':
+                ty = ty.args[0]
+            elif p[0] == 'field':
+                ty = p[2]
+            elif p[0] in ('index', 'cindex'):
+                ty = ty.args[0]
+        while ty is not None and ty.kind == 'ref':
+            ty = ty.args[0]
+        if ty is None or ty.kind != 'adt':
+            raise Unsupported('downcast on unknown type')
+        idx, dv, nf = self.prog.variant(ty.name, variant)
+        return dv
 
     def load(self, fr, place, ty=None):
         if not place.proj:
@@ -660,6 +698,8 @@ class Interp:
         v = self.load(fr, op.place)
         if m == 'copy' and type(v) is L:
             return self.copy_val(v)
+        if type(v) is Poison:
+            raise Unsupported('use of an unmergeable value (%s) in %s' % (v.why, fr.fn.name))
         return v
 
     def const_val(self, c):
@@ -680,7 +720,7 @@ class Interp:
         if k == 'fn':
             return FnRef(c.val)
         if k == 'closure':
-            return self.mk([c.val], 'closure')
+            return self.mk([], 'closure:' + c.val)
         if k == 'named':
             return self.named_const(c.val)
         raise Unsupported('const %r' % (c,))
@@ -856,8 +896,8 @@ class Interp:
             return self.call(fr, clos.name, args, [None] * len(args))
         if type(clos) is Ptr:
             return self.call_closure(fr, clos.c[clos.k], args)
-        if type(clos) is L and clos.tag == 'closure':
-            f = self.prog.closure_fn(clos[0])
+        if type(clos) is L and clos.tag and clos.tag.startswith('closure:'):
+            f = self.prog.closure_fn(clos.tag[8:])
             # first param is the closure itself (by value / &mut / &)
             pty = f.locals[f.params[0]]
             self_arg = clos
@@ -952,6 +992,8 @@ class Interp:
             for cond, finals, st in results:
                 e = finals.get(key)
                 vals.append(e[2] if e is not None else orig)
+            if ty is None and c.tag in ITER_TAGS:
+                ty = USIZE       # positions / counters of library iterator models
             merged = vals[-1]
             for i in range(len(results) - 2, -1, -1):
                 merged = self.merge(results[i][0], vals[i], merged, ty, c if k is None else None)
@@ -983,6 +1025,10 @@ class Interp:
             if len(a) != len(b):
                 raise Unsupported('merge of containers of different length')
             return [self.merge(cond, x, y, None) for x, y in zip(a, b)]
+        if ta is L and tb is L and a.tag in ('enum', 'symenum') and b.tag in ('enum', 'symenum') and \
+                (a.tag == 'symenum' or b.tag == 'symenum' or len(a) != len(b)
+                 or (type(a[0]) is int and type(b[0]) is int and a[0] != b[0])):
+            return self.merge_enum(cond, a, b, ty)
         if ta is L and tb is L:
             if a.tag != b.tag:
                 raise Unsupported('merge of different aggregates %s/%s' % (a.tag, b.tag))
@@ -1007,7 +1053,41 @@ class Interp:
             return b
         if b is None:
             return a
+        if ta in (Ptr, SliceRef, FnRef, Poison) or tb in (Ptr, SliceRef, FnRef, Poison):
+            # two different references (typically dead temporaries of a loop body): representable only as poison;
+            # reading it later is an unsupported construct, never silently wrong
+            return Poison('merge of %r and %r' % (a, b))
         raise Unsupported('merge of %r and %r' % (a, b))
+
+    def enum_variants(self, e):
+        """enum / symenum -> (discriminant value or term, {discr value: L(fields)})"""
+        if e.tag == 'symenum':
+            return e[0], e[1]
+        if type(e[0]) is not int:
+            raise Unsupported('merge of an enum with symbolic discriminant and payload into a variant map')
+        return e[0], {e[0]: self.mk(list(e[1:]))}
+
+    def merge_enum(self, cond, a, b, ty):
+        da, va = self.enum_variants(a)
+        db, vb = self.enum_variants(b)
+        disc = T.ite(64, cond, da, db)
+        vm = {}
+        ftys = {}
+        if ty is not None and ty.kind == 'adt':
+            if ty.name == 'Result' and len(ty.args) == 2:
+                ftys = {0: [ty.args[0]], 1: [ty.args[1]]}
+            elif ty.name == 'Option' and ty.args:
+                ftys = {1: [ty.args[0]]}
+        for k in set(va) | set(vb):
+            if k in va and k in vb:
+                fa, fb = va[k], vb[k]
+                if len(fa) != len(fb):
+                    raise Unsupported('enum variant payload shapes differ')
+                ft = ftys.get(k, [None] * len(fa))
+                vm[k] = self.mk([self.merge(cond, x, y, t) for x, y, t in zip(fa, fb, ft + [None] * len(fa))])
+            else:
+                vm[k] = va.get(k) or vb.get(k)
+        return self.mk([disc, vm], 'symenum')
 
     def merge_strbuf(self, cond, a, b):
         n = 0
@@ -1063,7 +1143,7 @@ class Interp:
             v = self.unop(fr, rv[1], rv[2])
         elif k == 'discriminant':
             x = self.load(fr, rv[1])
-            if type(x) is L and x.tag == 'enum':
+            if type(x) is L and x.tag in ('enum', 'symenum'):
                 v = x[0]
             elif type(x) is int:
                 v = x
@@ -1089,7 +1169,7 @@ class Interp:
         elif k == 'ctor':
             v = self.ctor(fr, rv[1], rv[2])
         elif k == 'closure':
-            v = self.mk([rv[1]], 'closure')
+            v = self.mk([self.operand(fr, o) for o in rv[2]], 'closure:' + rv[1])
         elif k == 'len':
             x = self.load(fr, rv[1])
             v = x.len if type(x) is SliceRef else len(x)
@@ -1145,7 +1225,7 @@ class Interp:
                 if last in vs:
                     return self.mk([vs.index(last)] + args, 'enum')
         if name.startswith('{closure@'):
-            return self.mk([name.split('}')[0] + '}'] + args, 'closure')
+            return self.mk(args, 'closure:' + name.split('}')[0] + '}')
         raise Unsupported('constructor %s' % name)
 
     def mkref(self, fr, place):
@@ -1318,6 +1398,10 @@ class Interp:
         if kind in ('PointerExposeProvenance', 'PointerWithExposedProvenance'):
             return v
         raise Unsupported('cast kind %s' % kind)
+
+
+ITER_TAGS = {'Range', 'RangeIncl', 'StepBy', 'Rev', 'Chain', 'Enumerate', 'Skip', 'SliceIter', 'ArrIter', 'ChunksExact'}
+USIZE = parse_type('usize')
 
 
 class _Dead:
